@@ -183,6 +183,24 @@ static void payload_items(char downenc)
 				out[tpos] = sv0; out[tpos + 1] = sv1; out[qpos] = q0; out[qpos + 1] = q1;
 			}
 		}
+		/* the same with a first byte that the hostname decoders dispatch on ('R' raw, 'h' Base32 ...): the first part then decodes
+		 * to something and the MX/SRV reassembly loop goes round a second time over the unterminated buffer */
+		static const int BL2[] = { 2100, 4096 };
+		static const char FB[] = "RrhT";
+		for (unsigned i = 0; i < 2; i++) for (unsigned f = 0; f < 4; f++) {
+			int n = BL2[i];
+			pl[0] = FB[f]; for (int k = 1; k < n; k++) pl[k] = (k % 255) + 1;
+			int w = server_written(out, pl, n, downenc);
+			if (w <= 0 || rd_parse(out, w, &bm, err) || bm.nrr < 1) continue;
+			int tpos = bm.rr[0].rdoff - 10;
+			for (int t = 15; t <= 33; t += 18) {
+				if (t == bm.rr[0].type) continue;
+				unsigned char sv0 = out[tpos], sv1 = out[tpos + 1];
+				out[tpos] = t >> 8; out[tpos + 1] = t;
+				add_item(out, w, 0, "genuine answer carrying %d non-zero bytes starting with '%c' whose record claims type %d", n, FB[f], t);
+				out[tpos] = sv0; out[tpos + 1] = sv1;
+			}
+		}
 	}
 	/* data headers: every downstream seq / a few fragment numbers / last flag, bodies: valid packet, invalid zlib, inflating beyond 64 KB */
 	unsigned char ip[100], z[200]; int l = tm_ippkt(ip, 40, 0xC0A80101u, 0x0A000002, 4242), zl = tm_compress(ip, l, z, sizeof z);
